@@ -19,7 +19,7 @@ def Q(checks, timeout=240, shards=1, **kw):
     return d
 
 
-HOOK_COMMITS = ["df50802", "215f985", "cfbf92c", "4ab7d4f"]
+HOOK_COMMITS = ["df50802", "215f985", "cfbf92c", "4ab7d4f", "45235ce"]
 
 NOT_APPLICABLE = {}
 
